@@ -31,3 +31,42 @@ func init() {
 func init() {
 	Props["XSCHEMA"] = PropDef{Explanation: "debug: schema", Run: func(c *Ctx) []core.Ob { return c.Schema() }}
 }
+
+func init() {
+	Props["XLOCK"] = PropDef{Explanation: "debug: locks", Run: func(c *Ctx) []core.Ob { return c.Locks() }}
+}
+
+func init() {
+	Props["XPOOL"] = PropDef{Explanation: "debug: pools", Run: func(c *Ctx) []core.Ob { return c.Pools("net/packet", "nbt", "nbt/dynbt", "level", "bot") }}
+}
+
+func init() {
+	Props["XORDER"] = PropDef{Explanation: "debug: order", Run: func(c *Ctx) []core.Ob {
+		var obs []core.Ob
+		obs = append(obs, c.HandlerSort()...)
+		obs = append(obs, c.DispatchOrder()...)
+		obs = append(obs, c.CompressionSwitch()...)
+		obs = append(obs, c.RegionOrder()...)
+		obs = append(obs, c.SetBlockCounter()...)
+		obs = append(obs, c.OfflineUUID()...)
+		return obs
+	}}
+}
+
+func init() {
+	Props["XTAB"] = PropDef{Explanation: "debug: tables", Run: func(c *Ctx) []core.Ob {
+		var obs []core.Ob
+		obs = append(obs, c.RegionIndex()...)
+		obs = append(obs, c.RCONFrame()...)
+		return obs
+	}}
+}
+
+func init() {
+	Props["XPOL"] = PropDef{Explanation: "debug: polarity", Run: func(c *Ctx) []core.Ob {
+		var obs []core.Ob
+		obs = append(obs, c.SignaturePolarity()...)
+		obs = append(obs, c.RCONPolarity()...)
+		return obs
+	}}
+}
